@@ -771,6 +771,8 @@ var vfC10Seeds = map[string][]string{
 	"retained":  {"conn:p", "graft:p:t", "penalty:p:2", "penalty:p:2", "disc:p"},                        // p disconnected with a retained negative score
 	// m1 has been in validation for longer than the delivery window (first seen 600 ms ago, not yet validated), both peers active in the mesh
 	"validating": {"conn:p", "conn:q", "graft:p:t", "graft:q:t", "adv:1000", "adv:100", "decay", "val:m1:p", "adv:600"},
+	// three delivery records queued for expiry, created at different times, all of them about to outlive the seen window
+	"records": {"conn:p", "conn:q", "graft:p:t", "graft:q:t", "deliver:m2:p", "adv:100", "deliver:m1:p", "adv:100", "deliver:mu:p", "adv:1000"},
 }
 
 func vfC10Cfg(r *vfRun, pname, seed string) *vfExploreCfg {
@@ -806,7 +808,7 @@ func init() {
 			names := vfC10ParamNames(r.thorough)
 			r.res.Bounds["parameter_sets"] = len(names)
 			for _, pn := range names {
-				for _, seed := range []string{"", "mesh", "delivered", "retained", "validating"} {
+				for _, seed := range []string{"", "mesh", "delivered", "retained", "validating", "records"} {
 					if seed != "" && pn != "full" && pn != "alt" && pn != "skip:31" && pn != "peer-skip" {
 						continue
 					}
